@@ -9,6 +9,7 @@ import (
 	"encoding/json"
 	"errors"
 	"fmt"
+	"math/rand"
 	"net"
 	"net/http"
 	"net/http/httptest"
@@ -35,6 +36,86 @@ import (
 )
 
 // ---------------------------------------------------------------------------------------
+// progress tracking: what every goroutine of the running scenario is doing. Each goroutine writes
+// only its own slots (no ordering between the goroutines is introduced); the watchdog reads them.
+// A child in which nothing completes for `stall` is blocked (a deadlock in the code under test):
+// it reports the operations in flight and exits; the parent additionally kills a child that
+// overruns its budget. The generator therefore always terminates.
+
+type flight struct {
+	scenario string
+	cur      []atomic.Pointer[string]
+	done     []atomic.Int64
+}
+
+var (
+	curFlight  atomic.Pointer[flight]
+	flightsEnd atomic.Int64
+)
+
+func newFlight(scenario string, g int) *flight {
+	f := &flight{scenario: scenario, cur: make([]atomic.Pointer[string], g), done: make([]atomic.Int64, g)}
+	flightsEnd.Add(1)
+	curFlight.Store(f)
+	return f
+}
+func (f *flight) begin(t int, desc *string) { f.cur[t].Store(desc) }
+func (f *flight) end(t int)                 { f.cur[t].Store(nil); f.done[t].Add(1) }
+
+func progressNow() int64 {
+	p := flightsEnd.Load() << 32
+	if f := curFlight.Load(); f != nil {
+		for i := range f.done {
+			p += f.done[i].Load()
+		}
+	}
+	return p
+}
+
+const blockedMarker = "C20-BLOCKED "
+
+type blockedReport struct {
+	Scenario string   `json:"scenario"`
+	StallS   float64  `json:"no_progress_for_s"`
+	InFlight []string `json:"in_flight"`
+}
+
+func startWatchdog(stall time.Duration) {
+	go func() {
+		last, since := progressNow(), time.Now()
+		tk := time.NewTicker(250 * time.Millisecond)
+		for range tk.C {
+			if p := progressNow(); p != last {
+				last, since = p, time.Now()
+				continue
+			}
+			if time.Since(since) < stall {
+				continue
+			}
+			rep := blockedReport{StallS: time.Since(since).Seconds()}
+			if f := curFlight.Load(); f != nil {
+				rep.Scenario = f.scenario
+				for i := range f.cur {
+					if d := f.cur[i].Load(); d != nil {
+						rep.InFlight = append(rep.InFlight, fmt.Sprintf("goroutine %d: %s (after %d completed operations)", i, *d, f.done[i].Load()))
+					}
+				}
+			}
+			b, _ := json.Marshal(rep)
+			fmt.Fprintln(os.Stderr, blockedMarker+string(b))
+			os.Exit(4)
+		}
+	}()
+}
+
+func stallLimit(thorough bool) time.Duration {
+	if thorough {
+		return 60 * time.Second
+	}
+	return 15 * time.Second
+}
+
+// ---------------------------------------------------------------------------------------
 // recorded histories
 
 type hOp struct {
@@ -46,6 +127,7 @@ type hOp struct {
 	Inv   int64            `json:"inv"`
 	Ret   int64            `json:"ret"`
 	G     int              `json:"g"`
+	desc  string
 }
 
 type histOut struct {
@@ -112,6 +194,8 @@ func makeHistPlan(seed uint64, kind string, idx int, canClone bool) histPlan {
 			default:
 				prog = append(prog, hOp{Kind: "clone", G: t})
 			}
+			o := &prog[len(prog)-1]
+			o.desc = fmt.Sprintf("%s %s(%s)", kind, map[string]string{"reg": "register", "get": "lookup", "clone": "snapshot"}[o.Kind], o.Key)
 		}
 		p.progs = append(p.progs, prog)
 	}
@@ -130,13 +214,15 @@ func runHist(kind string, idx int, seed uint64) histOut {
 	var tick int64
 	start := make(chan struct{})
 	var wg sync.WaitGroup
+	fl := newFlight(fmt.Sprintf("hist:%s:%d", kind, idx), len(p.progs))
 	for t := range p.progs {
 		wg.Add(1)
-		go func(prog []hOp) {
+		go func(t int, prog []hOp) {
 			defer wg.Done()
 			<-start
 			for j := range prog {
 				o := &prog[j]
+				fl.begin(t, &o.desc)
 				o.Inv = atomic.AddInt64(&tick, 1)
 				switch o.Kind {
 				case "reg":
@@ -147,8 +233,9 @@ func runHist(kind string, idx int, seed uint64) histOut {
 					o.Snap = reg.clone()
 				}
 				o.Ret = atomic.AddInt64(&tick, 1)
+				fl.end(t)
 			}
-		}(p.progs[t])
+		}(t, p.progs[t])
 	}
 	close(start)
 	wg.Wait()
@@ -188,10 +275,13 @@ func runSeq(kind string, idx int, seed uint64, n int) histOut {
 			reg.reg(k, int64(1+i))
 		}
 	}
+	fl := newFlight(fmt.Sprintf("seq:%s:%d", kind, idx), 1)
 	for j := 0; j < n; j++ {
 		k := keys[r.Intn(nk)]
 		x := r.Intn(10)
 		o := hOp{Key: k, Inv: int64(2*j + 1), Ret: int64(2*j + 2)}
+		d := fmt.Sprintf("%s operation %d on %s (single goroutine)", kind, j, k)
+		fl.begin(0, &d)
 		switch {
 		case x < 4:
 			o.Kind, o.Val = "reg", int64(100+j)
@@ -206,6 +296,7 @@ func runSeq(kind string, idx int, seed uint64, n int) histOut {
 			o.Kind, o.Key = "clone", ""
 			o.Snap = reg.clone()
 		}
+		fl.end(0)
 		res.Events = append(res.Events, o)
 	}
 	if canClone {
@@ -252,6 +343,11 @@ func runNsBatch(batch, trials int) nsOut {
 	nns := 1 + (batch/6)%2
 	withAdd := batch%4 == 3
 	out := nsOut{Batch: batch, G: g, Trials: trials, Trial: -1, WithAdd: withAdd}
+	fl := newFlight(fmt.Sprintf("ns:batch%d", batch), g)
+	descs := make([]string, g)
+	for i := range descs {
+		descs[i] = fmt.Sprintf("Namespaced.Register(ns%d, n%d) on a fresh register", i%nns, i)
+	}
 	for trial := 0; trial < trials; trial++ {
 		n := register.New()
 		regs := make([]nsReg, g)
@@ -265,10 +361,12 @@ func runNsBatch(batch, trials int) nsOut {
 			go func(i int, x nsReg) {
 				defer wg.Done()
 				<-start
+				fl.begin(i, &descs[i])
 				if withAdd && i%2 == 1 {
 					n.AddNamespace(x.Ns)
 				}
 				n.Register(x.Ns, x.Name, x.V)
+				fl.end(i)
 			}(i, regs[i])
 		}
 		close(start)
@@ -318,6 +416,8 @@ func runJitConc(thorough bool) []jitOut {
 	for _, s := range []string{"linear-jitter", "exponential-jitter"} {
 		f := backoff.GetByName(s)
 		obs := make([][][]int64, g)
+		fl := newFlight("jitconc:"+s, g)
+		desc := s + " back-off call"
 		start := make(chan struct{})
 		var wg sync.WaitGroup
 		for t := 0; t < g; t++ {
@@ -328,7 +428,9 @@ func runJitConc(thorough bool) []jitOut {
 				<-start
 				for k := 0; k < per; k++ {
 					for i := 0; i <= 30; i++ {
+						fl.begin(t, &desc)
 						obs[t][i] = append(obs[t][i], int64(f(i)))
+						fl.end(t)
 					}
 				}
 			}(t)
@@ -351,17 +453,18 @@ func runJitConc(thorough bool) []jitOut {
 // start gate and the final wait (anything more would hide races from the detector)
 
 var raceScenarios = []string{"untyped", "namespaced", "combiner", "decoder", "sd", "gin-render", "mux-render",
-	"backoff", "balancers", "dns-subscriber"}
+	"gin-render-handler", "mux-render-handler", "backoff", "balancers", "dns-subscriber"}
 
-func parallel(g int, f func(t int)) {
+func parallel(scenario string, g int, f func(t int, fl *flight)) {
 	start := make(chan struct{})
 	var wg sync.WaitGroup
+	fl := newFlight(scenario, g)
 	for t := 0; t < g; t++ {
 		wg.Add(1)
 		go func(t int) {
 			defer wg.Done()
 			<-start
-			f(t)
+			f(t, fl)
 		}(t)
 	}
 	close(start)
@@ -372,106 +475,132 @@ func stubProxy(_ context.Context, _ *proxy.Request) (*proxy.Response, error) {
 	return &proxy.Response{Data: map[string]interface{}{"a": 1}, IsComplete: true}, nil
 }
 
+func isRegistryScenario(name string) bool {
+	for _, k := range registryNames {
+		if k == name {
+			return true
+		}
+	}
+	return false
+}
+
+// mixed use of one registry (no synchronisation of our own between the goroutines besides the start
+// gate and the final wait - anything more would hide races from the detector; the progress slots
+// are written by their own goroutine only)
+func runRegistryMix(name string, g, iters int) {
+	reg := newRegistry(name)
+	keys := []string{"c20r.a", "c20r.b", "c20r.c"}
+	if name == "namespaced" {
+		keys = []string{"ns0|a", "ns0|b", "ns1|c"}
+	}
+	reg.reg(keys[0], 1)
+	var nsr *register.Namespaced
+	if n, ok := reg.(*namespacedReg); ok {
+		nsr = n.n
+	}
+	isGin, isMux := strings.HasPrefix(name, "gin-render"), strings.HasPrefix(name, "mux-render")
+	// while the registry is being used, requests are being served through the components that read it
+	var ginEngine *gin.Engine
+	var muxHandler http.HandlerFunc
+	epCfg := &config.EndpointConfig{Endpoint: "/x", Method: "GET", Timeout: 10 * time.Second, OutputEncoding: "negotiate",
+		Backend: []*config.Backend{{URLPattern: "/b", Encoding: "json"}}}
+	if isGin {
+		gin.SetMode(gin.ReleaseMode)
+		ginEngine = gin.New()
+		ginEngine.GET("/x", krakendgin.EndpointHandler(epCfg, stubProxy))
+	}
+	if isMux {
+		muxHandler = mux.EndpointHandler(epCfg, stubProxy)
+	}
+	dReg, dGet, dClone, dExtra := name+" register", name+" lookup", name+" snapshot", name+" lookup while a request is served / a handler is built"
+	parallel("mix:"+name, g, func(t int, fl *flight) {
+		for j := 0; j < iters; j++ {
+			k := keys[(t+j)%len(keys)]
+			switch (t + j) % 4 {
+			case 0:
+				fl.begin(t, &dReg)
+				reg.reg(k, int64(t*100000+j))
+			case 1, 2:
+				fl.begin(t, &dGet)
+				reg.get(k)
+				if j%16 == 0 {
+					fl.begin(t, &dClone)
+					reg.clone()
+				}
+			case 3:
+				fl.begin(t, &dExtra)
+				switch {
+				case name == "namespaced":
+					nsr.AddNamespace(fmt.Sprintf("ns%d", j%3))
+				case name == "combiner":
+					// building a merging proxy looks the combiner up
+					cfg := &config.EndpointConfig{Timeout: time.Second,
+						Backend:     []*config.Backend{{}, {}},
+						ExtraConfig: config.ExtraConfig{proxy.Namespace: map[string]interface{}{"combiner": k}}}
+					mw := proxy.NewMergeDataMiddleware(logging.NoOp, cfg)
+					_ = mw(proxy.NoopProxy, proxy.NoopProxy)
+				case isGin:
+					rec := httptest.NewRecorder()
+					ginEngine.ServeHTTP(rec, httptest.NewRequest("GET", "/x", nil))
+					_ = krakendgin.EndpointHandler(renderCfg(k, j), stubProxy)
+				case isMux:
+					rec := httptest.NewRecorder()
+					muxHandler(rec, httptest.NewRequest("GET", "/x", nil))
+					_ = mux.EndpointHandler(renderCfg(k, j), stubProxy)
+				default:
+					reg.get(k)
+				}
+			}
+			fl.end(t)
+		}
+	})
+}
+
 func runRaceScenario(name string, variant int, thorough bool) string {
 	g := []int{8, 3, 16}[variant%3]
 	iters := 300
 	if thorough {
 		iters = 1500
 	}
-	switch name {
-	case "untyped", "namespaced", "combiner", "decoder", "sd", "gin-render", "mux-render":
-		reg := newRegistry(name)
-		keys := []string{"c20r.a", "c20r.b", "c20r.c"}
-		if name == "namespaced" {
-			keys = []string{"ns0|a", "ns0|b", "ns1|c"}
-		}
-		reg.reg(keys[0], 1)
-		var nsr *register.Namespaced
-		if n, ok := reg.(*namespacedReg); ok {
-			nsr = n.n
-		}
-		// while the registry is being used, requests are being served through the components
-		// that read it
-		var ginEngine *gin.Engine
-		var muxHandler http.HandlerFunc
-		epCfg := &config.EndpointConfig{Endpoint: "/x", Method: "GET", Timeout: time.Second, OutputEncoding: "negotiate",
-			Backend: []*config.Backend{{URLPattern: "/b", Encoding: "json"}}}
-		if name == "gin-render" {
-			gin.SetMode(gin.ReleaseMode)
-			ginEngine = gin.New()
-			ginEngine.GET("/x", krakendgin.EndpointHandler(epCfg, stubProxy))
-		}
-		if name == "mux-render" {
-			muxHandler = mux.EndpointHandler(epCfg, stubProxy)
-		}
-		parallel(g, func(t int) {
-			for j := 0; j < iters; j++ {
-				k := keys[(t+j)%len(keys)]
-				switch (t + j) % 4 {
-				case 0:
-					reg.reg(k, int64(t*100000+j))
-				case 1, 2:
-					reg.get(k)
-					if j%16 == 0 {
-						reg.clone()
-					}
-				case 3:
-					switch name {
-					case "namespaced":
-						nsr.AddNamespace(fmt.Sprintf("ns%d", j%3))
-					case "combiner":
-						// building a merging proxy looks the combiner up
-						cfg := &config.EndpointConfig{Timeout: time.Second,
-							Backend:     []*config.Backend{{}, {}},
-							ExtraConfig: config.ExtraConfig{proxy.Namespace: map[string]interface{}{"combiner": k}}}
-						mw := proxy.NewMergeDataMiddleware(logging.NoOp, cfg)
-						_ = mw(proxy.NoopProxy, proxy.NoopProxy)
-					case "gin-render":
-						rec := httptest.NewRecorder()
-						ginEngine.ServeHTTP(rec, httptest.NewRequest("GET", "/x", nil))
-						_ = krakendgin.EndpointHandler(&config.EndpointConfig{Endpoint: "/y", Method: "GET", Timeout: time.Second, OutputEncoding: k,
-							Backend: []*config.Backend{{URLPattern: "/b", Encoding: "json"}}}, stubProxy)
-					case "mux-render":
-						rec := httptest.NewRecorder()
-						muxHandler(rec, httptest.NewRequest("GET", "/x", nil))
-						_ = mux.EndpointHandler(&config.EndpointConfig{Endpoint: "/y", Method: "GET", Timeout: time.Second, OutputEncoding: k,
-							Backend: []*config.Backend{{URLPattern: "/b", Encoding: "json"}}}, stubProxy)
-					default:
-						reg.get(k)
-					}
-				}
-			}
-		})
-	case "backoff":
+	switch {
+	case isRegistryScenario(name):
+		runRegistryMix(name, g, iters)
+	case name == "backoff":
 		names := []string{"linear", "linear-jitter", "exponential", "exponential-jitter", "fallback"}
 		shared := make([]backoff.TimeToWaitBeforeRetry, len(names))
 		for i, n := range names {
 			shared[i] = backoff.GetByName(n) // one function shared by every goroutine, as in async agents
 		}
 		bad := int64(0)
-		parallel(g, func(t int) {
+		desc := "back-off call"
+		parallel("backoff", g, func(t int, fl *flight) {
 			for j := 0; j < iters; j++ {
 				for i := 0; i <= 30; i++ {
 					f := shared[(t+j+i)%len(shared)]
+					fl.begin(t, &desc)
 					if f(i) < 0 {
 						atomic.AddInt64(&bad, 1)
 					}
+					fl.end(t)
 				}
 			}
 		})
 		if bad != 0 {
 			return fmt.Sprintf("negative delays: %d", bad)
 		}
-	case "balancers":
+	case name == "balancers":
 		hosts := sd.FixedSubscriber{"http://a", "http://b", "http://c"}
 		bs := []sd.Balancer{sd.NewRoundRobinLB(hosts), sd.NewRandomLB(hosts), sd.NewBalancer(hosts),
 			sd.NewRoundRobinLB(sd.SubscriberFunc(func() ([]string, error) { return []string{"http://a", "http://b"}, nil }))}
-		parallel(g, func(t int) {
+		desc := "balancer Host()"
+		parallel("balancers", g, func(t int, fl *flight) {
 			for j := 0; j < iters*10; j++ {
+				fl.begin(t, &desc)
 				_, _ = bs[(t+j)%len(bs)].Host()
+				fl.end(t)
 			}
 		})
-	case "dns-subscriber":
+	case name == "dns-subscriber":
 		var calls int64
 		lookup := func(_, _, _ string) (string, []*net.SRV, error) {
 			c := atomic.AddInt64(&calls, 1)
@@ -491,14 +620,17 @@ func runRaceScenario(name string, variant int, thorough bool) string {
 		if thorough {
 			target = 20
 		}
-		parallel(g, func(t int) {
+		desc := "DNS subscriber Hosts() / balancer Host()"
+		parallel("dns-subscriber", g, func(t int, fl *flight) {
 			// read until the refresh goroutine has looked the name up `target` more times
 			for j := 0; atomic.LoadInt64(&calls) < target || j < iters; j++ {
+				fl.begin(t, &desc)
 				hs, _ := sub.Hosts()
 				for i := range hs {
 					hs[i] = "scribbled" // the caller owns the slice it was given
 				}
 				_, _ = lb.Host()
+				fl.end(t)
 				if j%64 == 0 {
 					runtime.Gosched()
 				}
@@ -511,11 +643,172 @@ func runRaceScenario(name string, variant int, thorough bool) string {
 }
 
 // ---------------------------------------------------------------------------------------
+// liveness stress of the render registers through the routers' own lookup path: handlers are built
+// (getRender) by several goroutines while others register renders without pause
+
+type liveOut struct {
+	Scenario string `json:"scenario"`
+	Builds   int64  `json:"handlers_built"`
+	Regs     int64  `json:"registrations"`
+}
+
+func runLive(router string, thorough bool) liveOut {
+	builders, n := 4, 40000
+	if thorough {
+		builders, n = 6, 400000
+	}
+	res := liveOut{Scenario: "live:" + router}
+	var stop int32
+	dBuild := router + " endpoint handler factory (getRender: backend encoding, then output encoding)"
+	dReg := router + " RegisterRender"
+	key := "c20live." + router
+	parallel("live:"+router, builders+2, func(t int, fl *flight) {
+		if t >= builders { // registrars
+			var c int64
+			for j := 0; atomic.LoadInt32(&stop) < int32(builders); j++ {
+				fl.begin(t, &dReg)
+				if router == "gin" {
+					ginRenderReg{}.reg(key, int64(j))
+				} else {
+					muxRenderReg{}.reg(key, int64(j))
+				}
+				fl.end(t)
+				c++
+				if j%256 == 0 {
+					runtime.Gosched()
+				}
+			}
+			atomic.AddInt64(&res.Regs, c)
+			return
+		}
+		for j := 0; j < n; j++ {
+			fl.begin(t, &dBuild)
+			if router == "gin" {
+				_ = krakendgin.EndpointHandler(renderCfg(key, j), stubProxy)
+			} else {
+				_ = mux.EndpointHandler(renderCfg(key, j), stubProxy)
+			}
+			fl.end(t)
+		}
+		atomic.AddInt64(&res.Builds, int64(n))
+		atomic.AddInt32(&stop, 1)
+	})
+	return res
+}
+
+// ---------------------------------------------------------------------------------------
+// back-off, in-process but in a child (a mutated jitter could block on its own lock)
+
+type backOut struct {
+	Kind    string     `json:"kind"` // back | jit
+	Name    string     `json:"name"`
+	From    int        `json:"from,omitempty"`
+	Obs     []int64    `json:"obs,omitempty"`
+	Attempt int        `json:"attempt,omitempty"`
+	Seed    int64      `json:"seed,omitempty"`
+	Pairs   [][2]int64 `json:"pairs,omitempty"`
+}
+
+func jitDraws(thorough bool) (int, int) {
+	if thorough {
+		return 1500, 100
+	}
+	return 40, 40
+}
+
+func runBackoff(seed uint64, thorough bool, emit func(backOut)) {
+	r := rng.New(seed)
+	fl := newFlight("backoff-sequential", 1)
+	names := []string{"linear", "exponential", "", "LINEAR", "Exponential", "unknown", "constant", "linear ", "eXpOnEnTiAl"}
+	windows := [][2]int{{0, 31}, {-3, 80}, {28, 10}, {-1, 3}, {60, 8}}
+	for _, name := range names {
+		f := backoff.GetByName(name)
+		d := "back-off " + name
+		for _, win := range windows {
+			obs := make([]int64, win[1])
+			for k := range obs {
+				fl.begin(0, &d)
+				obs[k] = int64(f(win[0] + k))
+				fl.end(0)
+			}
+			emit(backOut{Kind: "back", Name: name, From: win[0], Obs: obs})
+		}
+	}
+	draws, chunk := jitDraws(thorough)
+	for _, name := range []string{"linear-jitter", "exponential-jitter", "Linear-Jitter"} {
+		f := backoff.GetByName(name)
+		d := "back-off " + name
+		for i := 0; i <= 40; i++ {
+			nd := draws
+			if i > 30 || name == "Linear-Jitter" {
+				nd = 10
+			}
+			for done := 0; done < nd; done += chunk {
+				seed := int64(r.U64() >> 1)
+				old := backoff.VerifC20SetRandom(rand.New(rand.NewSource(seed)))
+				twin := rand.New(rand.NewSource(seed))
+				arg := i
+				if strings.HasPrefix(strings.ToLower(name), "exponential") {
+					arg = int(1 << uint(i))
+				}
+				n := 2 * (arg*1000/3 + 1)
+				k := chunk
+				if nd-done < k {
+					k = nd - done
+				}
+				pj := make([][2]int64, k)
+				for x := 0; x < k; x++ {
+					want := int64(twin.Intn(n))
+					fl.begin(0, &d)
+					got := int64(f(i))
+					fl.end(0)
+					pj[x] = [2]int64{want, got}
+				}
+				backoff.VerifC20SetRandom(old)
+				emit(backOut{Kind: "jit", Name: name, Attempt: i, Seed: seed, Pairs: pj})
+			}
+		}
+	}
+}
+
+// number of cases runBackoff emits
+func backoffCount(thorough bool) int {
+	draws, chunk := jitDraws(thorough)
+	n := 9 * 5
+	for _, name := range []string{"linear-jitter", "exponential-jitter", "Linear-Jitter"} {
+		for i := 0; i <= 40; i++ {
+			nd := draws
+			if i > 30 || name == "Linear-Jitter" {
+				nd = 10
+			}
+			n += (nd + chunk - 1) / chunk
+		}
+	}
+	return n
+}
+
+func seqCount(thorough bool) int {
+	if thorough {
+		return 400
+	}
+	return 40
+}
+
+// ---------------------------------------------------------------------------------------
 
 func childMain(extra string, seed uint64, thorough bool) {
 	parts := strings.Split(extra, ":")
 	enc := json.NewEncoder(os.Stdout)
+	startWatchdog(stallLimit(thorough))
 	switch parts[1] {
+	case "backoff":
+		runBackoff(seed, thorough, func(o backOut) { enc.Encode(o) })
+	case "seq":
+		kind := parts[2]
+		r := rng.New(seed*13 + uint64(kindIndex(kind)))
+		for i := 0; i < seqCount(thorough); i++ {
+			enc.Encode(runSeq(kind, i, seed, 10+r.Intn(30)))
+		}
 	case "hist":
 		kind := parts[2]
 		for i := 0; i < histScenarios(thorough); i++ {
@@ -530,6 +823,8 @@ func childMain(extra string, seed uint64, thorough bool) {
 		for _, o := range runJitConc(thorough) {
 			enc.Encode(o)
 		}
+	case "live":
+		enc.Encode(runLive(parts[2], thorough))
 	case "race":
 		v := 0
 		fmt.Sscanf(parts[3], "%d", &v)
